@@ -296,9 +296,9 @@ PROPS["C19"] = {
               {"name": "legacy-dir", "runs": {"quick": 3000, "thorough": 80000}, "chunk": 250}],
     "rule": ("one run = a simulated directory of 1-3 watched files (OPL .ts, or legacy .json/.yaml/.yml/.toml) and 6-40 (quick) / 6-90 (thorough) tape-chosen steps: edits (replace, truncate-then-write in chunks, remove, re-create) with versions that are valid, syntactically broken, type-incorrect, empty or torn; "
              "deliveries of pending notifications in any order with faults (duplicate, torn read, read error, dropped - never the last one of a file, coalescing at the end); samples. Each delivery is turned, at that instant, into the watcherx event the real file watcher would produce for the file's content at that instant and sent down the real unbuffered channel into the real startEventHandler loop; "
-             "a third of the deliveries race with a concurrent reader goroutine. Oracle R5 at every sample and after every delivery: for each file the visible namespaces (manager listing, lookups and GET /namespaces) are exactly those of ONE valid version delivered so far (none only before the first valid version or after a delivered removal); "
+             "a third of the deliveries race with a concurrent reader goroutine. Every valid OPL version also declares a stable namespace whose permission means 'member' in even and 'not member' in odd versions; after every delivery a check through the real engine must decide by the visible version. Oracle R5 at every sample and after every delivery: for each file the visible namespaces (manager listing, lookups and GET /namespaces) are exactly those of ONE valid version delivered so far (none only before the first valid version or after a delivered removal); "
              "after faults stop and everything pending is delivered, each file's visible namespaces are those of its current valid content (bounded liveness: one quiescence round). non-trivial = history longer than 8 events; distinct = hash of the history."),
-    "probes": ["delivered_valid", "delivered_syntax", "delivered_type", "delivered_torn", "delivered_remove", "concurrent_reads", "samples", "converged_files", "probe_multi_file", "fault_duplicate", "fault_torn-read", "fault_read-error", "fault_dropped", "fault_partial-state-delivered"],
+    "probes": ["delivered_valid", "delivered_syntax", "delivered_type", "delivered_torn", "delivered_remove", "concurrent_reads", "samples", "engine_checks", "converged_files", "probe_multi_file", "fault_duplicate", "fault_torn-read", "fault_read-error", "fault_dropped", "fault_partial-state-delivered"],
     "real": ["keto internal/driver/config: oplConfigWatcher, NamespaceWatcher, memoryNamespaceManager, startEventHandler loop (through the verif-tagged hook file), internal/schema parser and type checker, ghodss/yaml, go-toml, encoding/json, namespacehandler GET /namespaces through the real read router"],
     "stub": ["fsnotify, the OS file system and watcherx's watcher goroutines: replaced by the simulated directory + notification queue (events built with watcherx's own event types)", "Config key changes (resetNamespaceManager) and websocket/http/base64 locations: out of scope, the property speaks about file changes"],
     "fault_kinds": {"duplicate": "a notification is delivered twice", "torn-read": "the event carries a strict prefix of the file (opl/json only: a prefix never parses there)", "read-error": "watcherx ErrorEvent instead of content", "dropped": "a notification is lost (never the last one of a file)", "partial-state-delivered": "delivery between truncate and the last chunk"},
